@@ -121,6 +121,11 @@ type rawPeer struct {
 	notify chan struct{}
 	frames []RawFrame // every frame received so far
 	rng    func([]byte)
+	// stopAfterClose: behave like a conformant endpoint after its own Close frame (RFC 6455 5.5.1: no data frame may follow it):
+	// writeFrame refuses everything but Close frames from then on. For scenarios in which several goroutines write for the peer.
+	stopAfterClose bool
+	wmu            sync.Mutex
+	closeWritten   bool
 }
 
 var errPeerTimeout = errors.New("raw peer: timeout")
@@ -214,7 +219,19 @@ func (p *rawPeer) leftover() []byte {
 	return append([]byte(nil), p.acc...)
 }
 
+var errPeerSentClose = errors.New("raw peer: Close frame already sent")
+
 func (p *rawPeer) writeFrame(f RawFrame) error {
+	if p.stopAfterClose {
+		p.wmu.Lock()
+		defer p.wmu.Unlock()
+		if p.closeWritten && f.Op != 8 {
+			return errPeerSentClose
+		}
+		if f.Op == 8 {
+			p.closeWritten = true
+		}
+	}
 	if p.client {
 		f.Masked = true
 		if p.rng != nil {
